@@ -361,7 +361,15 @@ func runRaceFleet(p c17Params, env *runner.Env, res *runner.Result) {
 		for {
 			all, over := true, true
 			for _, x := range insts {
-				if !s.Loaded(x.Name, lname, from) {
+				// by whatever path: the blob itself, or the snapshot of a peer that merged it (the cleaners of this
+				// fleet remove a foreign blob as soon as one instance has merged and re-published it)
+				have := s.Loaded(x.Name, lname, from)
+				if !have {
+					if st, err := x.Logical(); err == nil {
+						_, have = st["d"]["zlate"]
+					}
+				}
+				if !have {
 					all = false
 				}
 				if s.Count(x.Name, "loop.end", from) < 1500 {
@@ -373,7 +381,7 @@ func runRaceFleet(p c17Params, env *runner.Env, res *runner.Result) {
 				break
 			}
 			if over {
-				res.Violate("downloaders-wedged", fmt.Sprintf("a valid snapshot of a new instance (%s) was not merged by every sync loop within 1500 loop iterations after undecodable blobs had been arriving: downloaders no longer make progress", lname), map[string]any{"goroutines": goroutineDump(12000)})
+				res.Violate("downloaders-wedged", fmt.Sprintf("a valid snapshot of a new instance (%s) did not reach every instance (neither directly nor through a peer's snapshot) within 1500 loop iterations after undecodable blobs had been arriving: downloaders no longer make progress", lname), map[string]any{"goroutines": goroutineDump(80000), "events_tail": s.Tail(60), "names": len(b.Names())})
 				break
 			}
 			if time.Now().After(wdog) {
